@@ -69,6 +69,16 @@ module Z =
   | Zpos x0 -> Zneg x0
   | Zneg x0 -> Zpos x0
 
+  (** val succ : coq_Z -> coq_Z **)
+
+  let succ x =
+    add x (Zpos Coq_xH)
+
+  (** val pred : coq_Z -> coq_Z **)
+
+  let pred x =
+    add x (Zneg Coq_xH)
+
   (** val sub : coq_Z -> coq_Z -> coq_Z **)
 
   let sub m n =
@@ -159,6 +169,20 @@ module Z =
     | Zneg p -> (match y with
                  | Zneg q -> Pos.eqb p q
                  | _ -> false)
+
+  (** val max : coq_Z -> coq_Z -> coq_Z **)
+
+  let max n m =
+    match compare n m with
+    | Lt -> m
+    | _ -> n
+
+  (** val min : coq_Z -> coq_Z -> coq_Z **)
+
+  let min n m =
+    match compare n m with
+    | Gt -> m
+    | _ -> n
 
   (** val to_nat : coq_Z -> nat **)
 
@@ -272,6 +296,16 @@ module Z =
   let rem a b =
     snd (quotrem a b)
 
+  (** val log2 : coq_Z -> coq_Z **)
+
+  let log2 = function
+  | Zpos p0 ->
+    (match p0 with
+     | Coq_xI p -> Zpos (Pos.size p)
+     | Coq_xO p -> Zpos (Pos.size p)
+     | Coq_xH -> Z0)
+  | _ -> Z0
+
   (** val coq_lor : coq_Z -> coq_Z -> coq_Z **)
 
   let coq_lor a b =
@@ -321,4 +355,11 @@ module Z =
        | Z0 -> a
        | Zpos b0 -> Zneg (N.succ_pos (N.coq_lxor (Pos.pred_N a0) (Npos b0)))
        | Zneg b0 -> of_N (N.coq_lxor (Pos.pred_N a0) (Pos.pred_N b0)))
+
+  (** val log2_up : coq_Z -> coq_Z **)
+
+  let log2_up a =
+    match compare (Zpos Coq_xH) a with
+    | Lt -> succ (log2 (pred a))
+    | _ -> Z0
  end
